@@ -40,10 +40,10 @@ class Bounded:
         return '%s/%s' % (self.prop, self.name)
 
 
-def run_unit(u, tier, seed, registry):
+def run_unit(u, tier, seed, registry, case=None):
     if isinstance(u, C.Contract):
-        r = C.Verifier(u, tier, seed, registry).run()
-        if u.crosscheck is not None:
+        r = C.Verifier(u, tier, seed, registry).run(cases=None if case is None else [case])
+        if u.crosscheck is not None and case in (None, 0):
             try:
                 from .crosscheck import crosscheck
                 cc = crosscheck(u, tier, seed)
